@@ -433,49 +433,69 @@ def r09_10(ctx, a):
             fs = conds.edge_facts(b, bk, nx)
             if fs and a.name == "tail" and conds.cmp_holds(fs, "Lt", is_prev, is_lim):
                 return 1
+            if fs and a.name == "tail" and conds.cmp_holds(fs, "Ge", is_prev, is_lim):
+                return 2
             return st
         forward_states(b, 0, transfer, start=start, edge_filter=edge)
         seen = set()
-        for blk, notfull in results:
-            if (blk, notfull) in seen:
+        for blk, pstate in results:
+            if (blk, pstate) in seen:
                 continue
-            seen.add((blk, notfull))
-            if a.name == "tail" and not notfull:
-                continue  # full view: the start moves with the operation - arithmetic not decided
+            seen.add((blk, pstate))
             e = emit_blocks[blk]
+            # the cases to examine: Head/Skip one case; Tail: view not full / full (both when the path does not say)
+            if a.name == "tail":
+                cases = {0: ["not-full", "full"], 1: ["not-full"], 2: ["full"]}[pstate]
+            else:
+                cases = ["always"]
             for agg in find_all(e, lambda y: y[0] == "agg" and y[1] == "adt" and isinstance(y[2], str) and y[2].endswith("::VectorDiff")):
                 for name, op in zip(agg[4], agg[5]):
                     if name not in ("index", "length") or agg[3] != v:
                         continue
-                    n += 1
-                    assume = base + bound + ([L - P - Lin(const=1), L - Lin(const=1)] if a.name == "tail" else [L - Lin(const=1)] if a.name == "head" else [C])
-                    nz = Normaliser(b, symbols, assume)
-                    r = nz.nf(op)
-                    target = (I - C) if a.name == "skip" else I
-                    where = b.line_at((blk, 10 ** 6))
-                    cond = {"head": "always (the head view starts at 0)", "skip": "always (the skip view starts at `count`)", "tail": "on this path prev_len < limit (the tail view is the whole vector)"}[a.name]
-                    key = "%s.%s%s" % (agg[3], name, "|not-full" if a.name == "tail" else "")
-                    sat = nz.as_sat(r)
-                    if not r.opaque():
-                        d = r - target
-                        if d.is_const() and d.c == 0:
-                            ctx.holds("R09.10", f, key, where, "emitted %s = %s = %s, %s" % (name, fmt(op, 4), r, cond))
-                        elif d.is_const():
-                            ctx.violated("R09.10", f, key, where,
-                                         "%s translator, arm %s: %s the view %s of source %s I is `%s`, but the emitted expression `%s` normalises to `%s` (off by %d)" % (
-                                             a.name, v, cond, name, name, target, fmt(op, 4), r, d.c))
+                    for case in cases:
+                        n += 1
+                        one = Lin(const=1)
+                        if a.name == "tail" and case == "not-full":
+                            assume = base + bound + [L - P - one, L - one]
+                            target = I
+                            cond = "while prev_len < limit (the tail view is the whole vector, also after one insertion)"
+                        elif a.name == "tail":
+                            assume = base + bound + [P - L, L - one]
+                            target = (I - P - one + L) if v == "Insert" else (I - P + L)
+                            cond = "while prev_len >= limit (the tail view starts at %s)" % ("prev_len + 1 - limit after the insertion" if v == "Insert" else "prev_len - limit")
+                        elif a.name == "head":
+                            assume = base + bound + [L - one]
+                            target = I
+                            cond = "always (the head view starts at 0)"
                         else:
-                            ctx.undecided("R09.10", f, key, where, "normal form `%s` differs from `%s` symbolically" % (r, target))
-                    elif sat is not None:
-                        d = sat - target
-                        if d.is_const() and d.c < 0 and not provable_nonneg(-I, assume):
-                            ctx.violated("R09.10", f, key, where,
-                                         "%s translator, arm %s: %s the view %s must be `%s`, but the emitted expression `%s` normalises to `max(%s, 0)`, which is %d too small whenever I >= %d (nothing on this path forces I = 0)" % (
-                                             a.name, v, cond, name, target, fmt(op, 4), sat, -d.c, -d.c))
-                        elif d.is_const() and d.c == 0:
-                            ctx.holds("R09.10", f, key, where, "emitted %s = max(%s, 0) with %s >= 0" % (name, sat, sat))
+                            assume = base + bound + [C]
+                            target = I - C
+                            cond = "always (the skip view starts at `count`)"
+                        nz = Normaliser(b, symbols, assume)
+                        r = nz.nf(op)
+                        where = b.line_at((blk, 10 ** 6))
+                        key = "%s.%s%s" % (agg[3], name, "|" + case if a.name == "tail" else "")
+                        sat = nz.as_sat(r)
+                        if not r.opaque():
+                            d = r - target
+                            if d.is_const() and d.c == 0:
+                                ctx.holds("R09.10", f, key, where, "emitted %s = %s = %s, %s" % (name, fmt(op, 4), r, cond))
+                            elif d.is_const():
+                                ctx.violated("R09.10", f, key, where,
+                                             "%s translator, arm %s: %s the view %s of source %s I is `%s`, but the emitted expression `%s` normalises to `%s` (off by %d)" % (
+                                                 a.name, v, cond, name, name, target, fmt(op, 4), r, d.c))
+                            else:
+                                ctx.undecided("R09.10", f, key, where, "normal form `%s` differs from `%s` symbolically" % (r, target))
+                        elif sat is not None:
+                            d = sat - target
+                            if d.is_const() and d.c < 0 and not provable_nonneg(-I, assume):
+                                ctx.violated("R09.10", f, key, where,
+                                             "%s translator, arm %s: %s the view %s must be `%s`, but the emitted expression `%s` normalises to `max(%s, 0)`, which is %d too small whenever I >= %d (nothing on this path forces I = 0)" % (
+                                                 a.name, v, cond, name, target, fmt(op, 4), sat, -d.c, -d.c))
+                            elif d.is_const() and d.c == 0:
+                                ctx.holds("R09.10", f, key, where, "emitted %s = max(%s, 0) with %s >= 0" % (name, sat, sat))
+                            else:
+                                ctx.undecided("R09.10", f, key, where, "saturating form max(%s, 0) not comparable with %s" % (sat, target))
                         else:
-                            ctx.undecided("R09.10", f, key, where, "saturating form max(%s, 0) not comparable with %s" % (sat, target))
-                    else:
-                        ctx.undecided("R09.10", f, key, where, "expression not linear: %s (%s)" % (fmt(op, 4), "; ".join(nz.notes[:2])))
+                            ctx.undecided("R09.10", f, key, where, "expression not linear: %s (%s)" % (fmt(op, 4), "; ".join(nz.notes[:2])))
     return n
